@@ -70,6 +70,18 @@ func (c12) Gen(r *sim.Rand, tier string, run uint64) *sim.Scenario {
 		if r.Chance(1, 6) {
 			placeAtBankEnd(r, sc, false)
 		}
+		if r.Chance(1, 25) {
+			// a long wait loop: a few thousand instructions, stopped by the cycle budget alone
+			// (whatever the clock on the wall says meanwhile)
+			sc.Ops = []sim.Op{{K: "i", B: []byte{0xEA}}, {K: "i", B: []byte{0x80, 0xFD}}}
+			if r.Chance(1, 2) {
+				sc.Ops = []sim.Op{{K: "i", B: []byte{0x80, 0xFE}}}
+			}
+			sc.Cfg["budgetmode"] = 0
+			sc.Cfg["budget"] = int64(r.Range(3100, 6000))
+			sc.Cfg["targetmode"] = 5
+			sc.Cfg["again"] = 0
+		}
 	case x < 80:
 		kind := int64(1 + r.Intn(2))
 		sc.Cfg["kind"] = kind
@@ -372,6 +384,7 @@ func c12sys(sc *sim.Scenario, env *sim.Env) *sim.Violation {
 	cbzero := sc.C("cbzero") != 0 && !again
 	cbnest := sc.C("cbnest") != 0 && !again
 	nestedWrong := false
+	nestDepth, nestedFiredHook := 0, false
 	onpc := map[uint32]func(){}
 	for a := range cbAddrs {
 		a := a
@@ -386,11 +399,17 @@ func c12sys(sc *sim.Scenario, env *sim.Env) *sim.Violation {
 				_ = s.CPU.DisassembleCurrentPC(oa[:0])
 			}
 			cbEvents = append(cbEvents, ev)
-			if cbnest {
+			if cbnest && nestDepth > 0 {
+				// a run that executes nothing fetches nothing: it has no business firing hooks
+				// (left alone, this recursion would overflow the stack, which no one can recover)
+				nestedFiredHook = true
+			} else if cbnest {
 				// the host asks, from inside its hook, for a run to where the CPU already is: by
 				// the property that executes nothing, and it is no business of the run in progress
 				nested := false
+				nestDepth++
 				sim.RecoverLib(func() { nested = s.RunUntil(s.GetPC(), uint64(sc.C("cbnest"))-1) })
+				nestDepth--
 				if !nested {
 					nestedWrong = true
 				}
@@ -502,6 +521,9 @@ func c12sys(sc *sim.Scenario, env *sim.Env) *sim.Violation {
 		st.Probe("hook_calls_rununtil_to_here")
 		if nestedWrong {
 			return &sim.Violation{Oracle: "rununtil_result", Step: -1, Msg: "a RunUntil to the address the CPU is at, called from a program-counter hook, did not return true"}
+		}
+		if nestedFiredHook {
+			return &sim.Violation{Oracle: "onpc_count", Step: -1, Msg: "a RunUntil to the address the CPU is already at (it executes nothing, so it fetches nothing) ran the program-counter hook registered there"}
 		}
 	}
 	if cbzero && len(cbEvents) > 0 {
